@@ -55,7 +55,7 @@ class RoundTrip:
             return "SIGNED_FLOAT" if x.name[4:-1].startswith("x") else "SIGNED_INT"
 
         # quoted
-        if isinstance(p[0], str) and p[0].startswith(q) and isinstance(p[-1], str) and (p[-1].endswith(q) or p[-1].endswith(q + "i")) and len(p) >= 2 and q not in "".join(x for x in p if isinstance(x, str))[1:].rstrip("i")[:-1]:
+        if isinstance(p[0], str) and p[0].startswith(q) and isinstance(p[-1], str) and (p[-1].endswith(q) or p[-1].endswith(q + "i")) and len(p) >= 2 and q not in "".join(x if isinstance(x, str) else "x" for x in p)[1:].rstrip("i")[:-1].replace("\\" + q, ""):
             kind = "DOUBLE_QUOTED_STRING" if q == '"' else "SINGLE_QUOTED_STRING"
             if p[0] == q + "#" and len(p) == 3 and isinstance(p[1], Atom) and p[1].name == "hex":
                 kind = "DOUBLE_QUOTED_HEXCOLOR" if q == '"' else "SINGLE_QUOTED_HEXCOLOR"
